@@ -298,7 +298,7 @@ theorem getters_are_the_source :
     `[]byte` are stored when the field's kind matches; fifteen cases in all, over the fields of the
     pointed-to struct, each asking the row for `LcFirst(name)`. -/
 theorem mapTo_is_the_source :
-    (∀ t ∈ IntTy.all, (RowTie.mapCases Gen.rowFacts.mapTo).lookup (RowTie.goInt t) =
+    (∀ t ∈ IntTy.all, ((RowTie.mapCases Gen.rowFacts.mapTo).lookup (RowTie.goInt t)).map MapCase.castFirst =
       some (if t.signed then .viaCast "ToInt64" "CanInt" "SetInt" "int64"
             else .viaCast "ToUint64" "CanUint" "SetUint" "uint64"))
     ∧ (RowTie.mapCases Gen.rowFacts.mapTo).length = 15
